@@ -858,6 +858,7 @@ def run_scenario(L, S, sc, probe=False):
     flags = set()
     streams = []
     sticky = set()
+    inos = {}
     ops = [tuple(o) for o in sc["ops"]]
     pos = 0
     for gi, gn in enumerate(sc["groups"]):
@@ -906,7 +907,13 @@ def run_scenario(L, S, sc, probe=False):
                     continue
                 evs, err = feed(L, layer, em, sink, S, part, rec)
                 lines.append({"e": "feed", "evs": evs})
-                detail.append({"native": [list(x) for x in part],
+                if layer == "fse":      # replay files must not depend on the scratch name / inode numbers of the run
+                    shown = [[x[0].replace(S.root, "<root>"), inos.setdefault(x[1], len(inos) + 1) if x[1] else None,
+                              hex(x[2])] for x in part]
+                else:
+                    shown = [[{1: "ADDED", 2: "REMOVED", 3: "MODIFIED", 4: "RENAMED_OLD_NAME", 5: "RENAMED_NEW_NAME",
+                               0xFFFE: "REMOVED_SELF"}[a], "/".join(p)] for a, p in part]
+                detail.append({"native": shown,
                                "queued": [f"{e['cls']}({e['src']},{e['dst']},syn={e['syn']})" for e in evs]})
                 if err:
                     lines.append({"e": "exc", "what": err[:200]})
